@@ -27,6 +27,7 @@ func genCfg() *rapid.Generator[Cfg] {
 		c := Cfg{Prefix: rapid.SampledFrom([]string{"", "pfx", "a.b"}).Draw(t, "prefix")}
 		c.Indexes = rapid.SampledFrom([][]string{{"ia"}, {"ia", "ib"}, {"ia", "ib", "ic"}, {"ic"}, {"ib", "ic"}}).Draw(t, "indexes")
 		c.SlowKey = rapid.SampledFrom([]int{0, 0, 0, 1, 2}).Draw(t, "slow")
+		c.ReuseIQ = rapid.IntRange(0, 2).Draw(t, "reuseIQ") == 0
 		n := rapid.IntRange(1, 4).Draw(t, "nstanding")
 		for i := 0; i < n; i++ {
 			c.Standing = append(c.Standing, genQuery(c.Indexes).Draw(t, "standing"))
